@@ -1,5 +1,184 @@
 /-
-C04 — property theorems (stub: no theorem stated yet, so no obligation is counted).
+C04 — Index queries are complete: every added record that overlaps a query is covered by a returned
+chunk.  PROPERTY THEOREMS ONLY (helper lemmas live in Hts.Lemmas.Index*).
+
+Everything is stated for ALL coordinate-sorted record sequences (`SortedInput`: any length, any number
+of references incl. skipped ids, unplaced records anywhere), ALL query intervals in the indexable
+range and ALL merge strategies that satisfy `EncLaw` (proved below for Adjacent, Squash and every
+CompressorStrategy(n)).  The models mirror the code with the repairs fixes/C04-1..3 applied.
+"Covered" is the strong reading: ONE returned chunk encloses the record's whole chunk.
 -/
+import Hts.Lemmas.IndexMerge
+import Hts.Props.C16
 namespace Hts.Props.C04
+open Hts.Model Hts.Model.Index
+
+/-! ### Add never fails on sorted input; what the index then knows -/
+
+/-- `add_never_fails`: on every coordinate-sorted in-range sequence every `Add` returns nil
+(no error, no panic) -/
+theorem add_never_fails (recs : List Rec) (h : SortedInput recs) :
+    ∀ x, x ∈ (addAll {} recs).2 → x = AddRes.ok :=
+  (addAll_sorted recs h).1
+
+/-- `bins_inv`: after the whole sequence the chunk of every placed record is stored under the
+record's bin in the record's reference, and bin numbers are pairwise distinct -/
+theorem bins_inv (recs : List Rec) (h : SortedInput recs) (r : Rec) (hr : r ∈ recs) (hp : r.placed = true) :
+    ∃ ref, (addAll {} recs).1.refs[r.rid.toNat]? = some ref ∧ (ref.bins.map (·.bin)).Nodup ∧
+      ∃ bn, bn ∈ ref.bins ∧ bn.bin = r.bin ∧ r.chunk ∈ bn.chunks := by
+  have inv := (addAll_sorted recs h).2
+  have hmem : r ∈ (recs.filter (·.placed)).reverse := by
+    rw [List.mem_reverse, List.mem_filter]; exact ⟨hr, hp⟩
+  obtain ⟨h0, hlt⟩ := inv.ridLt r hmem
+  have hlt' : r.rid.toNat < (addAll {} recs).1.refs.length := by omega
+  refine ⟨_, (List.getElem?_eq_some_iff).2 ⟨hlt', rfl⟩, ?_⟩
+  have ri := inv.refInv _ _ ((List.getElem?_eq_some_iff).2 ⟨hlt', rfl⟩)
+  refine ⟨ri.nodup, ri.bins r ?_⟩
+  unfold onRef; rw [List.mem_filter]; exact ⟨hmem, by simp; omega⟩
+
+/-- `tiles_inv`: the tile array of the record's reference reaches the last tile the record overlaps,
+and no entry up to that tile lies behind the record's chunk begin -/
+theorem tiles_inv (recs : List Rec) (h : SortedInput recs) (r : Rec) (hr : r ∈ recs) (hp : r.placed = true) :
+    ∃ ref, (addAll {} recs).1.refs[r.rid.toNat]? = some ref ∧
+      lastTile r.start r.stop < ref.intervals.length ∧
+      ∀ k v, k ≤ lastTile r.start r.stop → ref.intervals[k]? = some v → v ≤ r.chunk.b := by
+  have inv := (addAll_sorted recs h).2
+  have hmem : r ∈ (recs.filter (·.placed)).reverse := by
+    rw [List.mem_reverse, List.mem_filter]; exact ⟨hr, hp⟩
+  obtain ⟨h0, hlt⟩ := inv.ridLt r hmem
+  have hlt' : r.rid.toNat < (addAll {} recs).1.refs.length := by omega
+  refine ⟨_, (List.getElem?_eq_some_iff).2 ⟨hlt', rfl⟩, ?_⟩
+  have ri := inv.refInv _ _ ((List.getElem?_eq_some_iff).2 ⟨hlt', rfl⟩)
+  have hm : r ∈ onRef (recs.filter (·.placed)).reverse r.rid.toNat := by
+    unfold onRef; rw [List.mem_filter]; exact ⟨hmem, by simp; omega⟩
+  exact ⟨ri.tilesLen r hm, ri.tilesLe r hm⟩
+
+/-- `sorted_tiles_le`: sorting the tile array (as `sort()` does) never makes the entry at a position
+larger than a bound that held for the whole prefix up to that position -/
+theorem sorted_tiles_le (l : List Int) (k : Nat) (B : Int) (hk : k < l.length)
+    (hpre : ∀ j v, j ≤ k → l[j]? = some v → v ≤ B) :
+    ∀ v, (l.mergeSort leOff)[k]? = some v → v ≤ B :=
+  Index.sorted_tiles_le l k B hk hpre
+
+/-! ### the merge strategies lose no chunk -/
+
+theorem adjacent_encloses : EncLaw Local.adjacent := Local.encLaw_adjacent
+theorem squash_encloses : EncLaw Local.squash := Local.encLaw_squash
+theorem compressor_encloses (near : Int) : EncLaw (Local.compressor near) := Local.encLaw_compressor near
+theorem identity_encloses : EncLaw id := encLaw_id
+
+/-! ### completeness of `internal.Index.Chunks` -/
+
+/-- the index after the sequence, optionally after `MergeChunks pre` -/
+def built (recs : List Rec) : Index := (addAll {} recs).1
+
+/-- `chunks_complete` for `internal.Index`: for every query `[beg, stop)` with `0 ≤ beg < stop` and
+every placed record overlapping it whose bin is among the candidate bins, `Chunks` succeeds and, after
+any strategy `s` with `EncLaw`, one returned chunk encloses the record's chunk; the same after
+`MergeChunks pre` for any `pre` with `EncLaw` -/
+theorem chunks_complete (recs : List Rec) (h : SortedInput recs) (r : Rec) (hr : r ∈ recs)
+    (hp : r.placed = true) (beg stop : Int) (bins : List Nat) (hb : 0 ≤ beg) (hq : beg < stop)
+    (hov : beg < r.stop) (hbin : r.bin ∈ bins)
+    (pre s : List Chunk → List Chunk) (hpre : EncLaw pre) (hs : EncLaw s) :
+    (∃ cs, chunks (built recs) r.rid beg stop bins = .ok cs ∧ coveredBy (s cs) r.chunk) ∧
+    (∃ cs, chunks (mergeChunks pre (built recs)) r.rid beg stop bins = .ok cs ∧ coveredBy (s cs) r.chunk) := by
+  have inv := (addAll_sorted recs h).2
+  have hmem : r ∈ (recs.filter (·.placed)).reverse := by
+    rw [List.mem_reverse, List.mem_filter]; exact ⟨hr, hp⟩
+  have hok := h.ok r hr
+  constructor
+  · obtain ⟨cs, h1, h2, c, hc, hce⟩ := chunks_complete_cover _ _ inv.cover r hmem hok.ce (hok.pos hp) beg stop bins hb hq hov hbin
+    exact ⟨cs, h1, coveredBy_trans (hs cs h2 c hc) hce⟩
+  · obtain ⟨cs, h1, h2, c, hc, hce⟩ := chunks_complete_cover _ _ (mergeChunks_cover pre hpre _ _ inv.cover) r hmem
+      hok.ce (hok.pos hp) beg stop bins hb hq hov hbin
+    exact ⟨cs, h1, coveredBy_trans (hs cs h2 c hc) hce⟩
+
+/-! ### BAI: `bam.Index` -/
+
+/-- the internal record `bam.Index.Add` derives from a `sam.Record` -/
+abbrev baiRec (r : Bai.BaiRec) : Rec := Bai.toRec Coord.binFor r
+
+/-- the BAI index after adding the records -/
+def baiBuilt (recs : List Bai.BaiRec) : Index := built (recs.map baiRec)
+
+/-- the bin law of C16 in the form needed here: the bin `Record.Bin` files a placed record under is
+listed by `OverlappingBinsFor` for every overlapping query in range -/
+theorem bai_bin_law (r : Rec) (hok : RecOK r) (hp : r.placed = true) (hbin : r.bin = Coord.binFor r.start r.stop)
+    (beg stop : Int) (hb : 0 ≤ beg) (hq : beg < stop) (hs : stop ≤ 536870912)
+    (hov1 : r.start < stop) (hov2 : beg < r.stop) : r.bin ∈ Coord.overlappingBinsFor beg stop := by
+  obtain ⟨h0, hlt⟩ := hok.pos hp
+  have hv := hok.vstop
+  simp only [validPos, Bool.and_eq_true, decide_eq_true_eq] at hv
+  have := Hts.Props.C16.bai_bin_in_bins r.start.toNat r.stop.toNat beg.toNat stop.toNat
+    (by omega) (by omega) (by omega) (by omega) (by omega) (by omega)
+  rw [hbin]
+  have e1 : ((r.start.toNat : Nat) : Int) = r.start := by omega
+  have e2 : ((r.stop.toNat : Nat) : Int) = r.stop := by omega
+  have e3 : ((beg.toNat : Nat) : Int) = beg := by omega
+  have e4 : ((stop.toNat : Nat) : Int) = stop := by omega
+  rw [e1, e2, e3, e4] at this
+  exact this
+
+/-- `chunks_complete` for BAI: for every coordinate-sorted sequence of `sam.Record`s, every query
+`[beg, stop)` with `0 ≤ beg < stop ≤ 2^29` on any reference and every placed record overlapping it,
+`bam.Index.Chunks` returns no error and one returned chunk encloses the record's chunk — with the
+default strategy or any `MergeStrategy` satisfying `EncLaw`, and also after `MergeChunks pre` -/
+theorem bai_chunks_complete (recs : List Bai.BaiRec) (h : SortedInput (recs.map baiRec))
+    (r : Bai.BaiRec) (hr : r ∈ recs) (hp : (baiRec r).placed = true)
+    (beg stop : Int) (hb : 0 ≤ beg) (hq : beg < stop) (hs29 : stop ≤ 536870912)
+    (hov1 : r.pos < stop) (hov2 : beg < r.stop)
+    (pre s : List Chunk → List Chunk) (hpre : EncLaw pre) (hs : EncLaw s) :
+    (∃ cs, Bai.chunks Coord.overlappingBinsFor s (baiBuilt recs) (baiRec r).rid beg stop = .ok cs ∧
+        coveredBy cs r.chunk) ∧
+    (∃ cs, Bai.chunks Coord.overlappingBinsFor s (mergeChunks pre (baiBuilt recs)) (baiRec r).rid beg stop = .ok cs ∧
+        coveredBy cs r.chunk) := by
+  have hmem : baiRec r ∈ recs.map baiRec := List.mem_map.2 ⟨r, hr, rfl⟩
+  have hbin := bai_bin_law (baiRec r) (h.ok _ hmem) hp rfl beg stop hb hq hs29 hov1 hov2
+  obtain ⟨⟨cs, h1, h2⟩, ⟨cs', h1', h2'⟩⟩ := chunks_complete (recs.map baiRec) h (baiRec r) hmem hp beg stop
+    (Coord.overlappingBinsFor beg stop) hb hq hov2 hbin pre s hpre hs
+  constructor
+  · refine ⟨s cs, ?_, h2⟩
+    unfold Bai.chunks baiBuilt
+    rw [h1]
+  · refine ⟨s cs', ?_, h2'⟩
+    unfold Bai.chunks baiBuilt
+    rw [h1']
+
+/-- the last clause of the property for BAI: an error or an empty answer implies that no added placed
+record overlaps the query -/
+theorem bai_error_or_empty_means_no_overlap (recs : List Bai.BaiRec) (h : SortedInput (recs.map baiRec))
+    (rid beg stop : Int) (hb : 0 ≤ beg) (hq : beg < stop) (hs29 : stop ≤ 536870912)
+    (s : List Chunk → List Chunk) (hs : EncLaw s)
+    (hans : (∃ e, Bai.chunks Coord.overlappingBinsFor s (baiBuilt recs) rid beg stop = .error e) ∨
+            Bai.chunks Coord.overlappingBinsFor s (baiBuilt recs) rid beg stop = .ok []) :
+    ¬ ∃ r, r ∈ recs ∧ (baiRec r).placed = true ∧ (baiRec r).rid = rid ∧ r.pos < stop ∧ beg < r.stop := by
+  rintro ⟨r, hr, hp, hrid, hov1, hov2⟩
+  obtain ⟨⟨cs, h1, c, hc, _⟩, _⟩ := bai_chunks_complete recs h r hr hp beg stop hb hq hs29 hov1 hov2 id s encLaw_id hs
+  rw [hrid] at h1
+  rcases hans with ⟨e, he⟩ | he
+  · rw [he] at h1; cases h1
+  · rw [he] at h1
+    cases h1
+    cases hc
+
+/-! ### non-vacuity: a sorted BAI input with a tile-straddling record, a record spanning three tiles,
+a skipped reference id, a placed-unmapped and an unplaced record (tests) -/
+
+def exBai : List Bai.BaiRec :=
+  [ ⟨true, 0, 100, 200, false, false, ⟨100, 150⟩⟩,
+    ⟨true, 0, 16000, 16500, false, false, ⟨150, 200⟩⟩,
+    ⟨false, -1, -1, 0, true, true, ⟨200, 250⟩⟩,
+    ⟨true, 2, 5, 40000, false, true, ⟨250, 300⟩⟩,
+    ⟨true, 2, 20000, 20001, true, true, ⟨300, 65536⟩⟩ ]
+
+example : SortedInput (exBai.map baiRec) := by decide
+example : (addAll {} (exBai.map baiRec)).2 = [.ok, .ok, .ok, .ok, .ok] := by decide
+/-- the theorem applied: the tile-straddling record is found by a query inside its second tile -/
+example : ∃ cs, Bai.chunks Coord.overlappingBinsFor Local.adjacent (baiBuilt exBai) 0 16400 16450 = .ok cs ∧
+    coveredBy cs ⟨150, 200⟩ :=
+  (bai_chunks_complete exBai (by decide) ⟨true, 0, 16000, 16500, false, false, ⟨150, 200⟩⟩ (by decide) (by decide)
+    16400 16450 (by decide) (by decide) (by decide) (by decide) (by decide) id Local.adjacent encLaw_id
+    adjacent_encloses).1
+example : EncLaw (Local.compressor (-1)) := compressor_encloses (-1)
+
 end Hts.Props.C04
